@@ -212,7 +212,9 @@ func verif_contract_dhcp4_spoofer_sendDHCP4Packet(conn net.PacketConn, srcAddr p
 func spec_dhcp_ok(h *Handler) bool {
 	return h != nil && h.session != nil && packet.VerifSpecSessionOK(h.session) && h.table != nil &&
 		spec_subnet_wf(h.net1) && spec_subnet_wf(h.net2) && spec_subnet_options_ok(h.net1) && spec_subnet_options_ok(h.net2) &&
-		vMapAll(h.table, func(k string, l *Lease) bool { return l != nil && (l.subnet == h.net1 || l.subnet == h.net2) })
+		vMapAll(h.table, func(k string, l *Lease) bool {
+			return l != nil && (l.subnet == h.net1 || l.subnet == h.net2) && len(l.ClientID) <= 32 && len(l.Addr.MAC) == 6 && (l.XID == nil || len(l.XID) == 4)
+		})
 }
 
 // spec_subnet_options_ok: the reply options of a subnet (newSubnet: server id, mask, router, DNS;
@@ -253,11 +255,14 @@ func verif_contract_dhcp4_spoofer_nakPacket(req packet.DHCP4, serverID, clientID
 //
 //verif:props C08
 func verif_contract_dhcp4_spoofer_Handler_findOrCreate(h *Handler, clientID []byte, mac net.HardwareAddr, name string) *Lease {
-	vRequires(spec_dhcp_ok(h))
+	vRequires(spec_dhcp_ok(h) && len(clientID) <= 32 && len(mac) == 6)
 	vCanary()
 	vModifiesMems("dhcp4_spoofer.Lease", "map:map[string]*github.com/irai/packet/handlers/dhcp4_spoofer.Lease/")
 	l := h.findOrCreate(clientID, mac, name)
 	vEnsures(l != nil && (l.subnet == h.net1 || l.subnet == h.net2))
+	vEnsures(len(l.ClientID) <= 32)
+	vEnsures(len(l.Addr.MAC) == 6)
+	vEnsures(l.XID == nil || len(l.XID) == 4)
 	vEnsures(spec_dhcp_ok(h))
 	return l
 }
@@ -272,7 +277,7 @@ func spec_dhcp_msg(p packet.DHCP4, options packet.DHCP4Options) bool {
 //
 //verif:props C08
 func verif_contract_dhcp4_spoofer_Handler_handleDecline(h *Handler, p packet.DHCP4, options packet.DHCP4Options) packet.DHCP4 {
-	vRequires(spec_dhcp_ok(h) && spec_dhcp_msg(p, options))
+	vRequires(spec_dhcp_ok(h) && spec_dhcp_req(p, options))
 	vCanary()
 	vModifiesMems("dhcp4_spoofer.Lease", "map:map[string]*github.com/irai/packet/handlers/dhcp4_spoofer.Lease/")
 	d := h.handleDecline(p, options)
@@ -282,7 +287,7 @@ func verif_contract_dhcp4_spoofer_Handler_handleDecline(h *Handler, p packet.DHC
 
 //verif:props C08
 func verif_contract_dhcp4_spoofer_Handler_handleRelease(h *Handler, p packet.DHCP4, options packet.DHCP4Options) packet.DHCP4 {
-	vRequires(spec_dhcp_ok(h) && spec_dhcp_msg(p, options))
+	vRequires(spec_dhcp_ok(h) && spec_dhcp_req(p, options))
 	vCanary()
 	vModifiesMems("dhcp4_spoofer.Lease", "map:map[string]*github.com/irai/packet/handlers/dhcp4_spoofer.Lease/")
 	d := h.handleRelease(p, options)
@@ -376,12 +381,19 @@ func spec_dhcp_req(p packet.DHCP4, options packet.DHCP4Options) bool {
 	return spec_dhcp_msg(p, options) &&
 		len(options[packet.DHCP4OptionClientIdentifier]) <= 32 &&
 		len(options[packet.DHCP4OptionParameterRequestList]) <= 255 &&
-		(options[packet.DHCP4OptionParameterRequestList] == nil || !vSameRegion(options[packet.DHCP4OptionParameterRequestList], p) || vOffset(options[packet.DHCP4OptionParameterRequestList], p) >= 240)
+		spec_view_behind_header(options[packet.DHCP4OptionParameterRequestList], p)
+}
+
+// spec_view_behind_header: an option value as ParseOptions produces it: nil, or a view of the
+// message that starts behind the fixed header and whose capacity ends with the message buffer.
+func spec_view_behind_header(v []byte, p packet.DHCP4) bool {
+	return v == nil || (vSameRegion(v, p) && vOffset(v, p) >= 240 && vOffset(v, p)+cap(v) <= cap(p))
 }
 
 // handleDiscover: total; nil or an OFFER of 300..921 bytes written over the request; keeps the
-// handler invariant. (NOT part of a registered check yet: see DESIGN.md section 13.)
+// handler invariant.
 //
+//verif:props C08
 //verif:timeout 120s
 func verif_contract_dhcp4_spoofer_Handler_handleDiscover(h *Handler, p packet.DHCP4, options packet.DHCP4Options) packet.DHCP4 {
 	vRequires(spec_dhcp_ok(h) && spec_client_ok(h) && spec_dhcp_req(p, options))
@@ -389,8 +401,43 @@ func verif_contract_dhcp4_spoofer_Handler_handleDiscover(h *Handler, p packet.DH
 	vModifiesHeap()
 	vModifiesWire()
 	vModifiesBytes(p[:cap(p)])
+	vModifiesBytes(fakeMAC) // (attackDHCPServer refreshes it)
 	d := h.handleDiscover(p, options)
 	vEnsures(d == nil || (300 <= len(d) && len(d) <= 921))
-	vEnsures(spec_dhcp_ok(h) && spec_client_ok(h))
+	vEnsures(spec_client_ok(h))
+	vEnsures(h.table != nil && spec_subnet_wf(h.net1) && spec_subnet_wf(h.net2))
+	vEnsures(spec_subnet_options_ok(h.net1) && spec_subnet_options_ok(h.net2))
+	vEnsures(spec_dhcp_ok(h))
+	return d
+}
+
+// saveConfig (lease file write: yaml.Marshal, ioutil.WriteFile), TRUSTED: total for a handler that
+// satisfies the invariant (it dereferences both subnets and every lease of the table) and without
+// effect on the handler. Not verified: it stores interior pointers (&h.net1.SubnetConfig) in a
+// value handed to the encoder, which the engine does not model.
+func verif_extern_dhcp4_spoofer_Handler_saveConfig(h *Handler, fname string) error {
+	vRequires(h != nil && h.session != nil && packet.VerifSpecSessionOK(h.session))
+	vRequires(h.table != nil && spec_subnet_wf(h.net1) && spec_subnet_wf(h.net2))
+	vRequires(spec_subnet_options_ok(h.net1) && spec_subnet_options_ok(h.net2))
+	vRequires(spec_dhcp_ok(h))
+	err := h.saveConfig(fname)
+	return err
+}
+
+// handleRequest: total; nil or an ACK / NAK of 300..921 bytes written over the request; keeps the
+// handler invariant.
+//
+//verif:props C08
+//verif:timeout 120s
+func verif_contract_dhcp4_spoofer_Handler_handleRequest(h *Handler, host *packet.Host, p packet.DHCP4, options packet.DHCP4Options, senderIP netip.Addr) packet.DHCP4 {
+	vRequires(spec_dhcp_ok(h) && spec_client_ok(h) && spec_dhcp_req(p, options))
+	vCanary()
+	vModifiesHeap()
+	vModifiesWire()
+	vModifiesBytes(p[:cap(p)])
+	d := h.handleRequest(host, p, options, senderIP)
+	vEnsures(d == nil || (300 <= len(d) && len(d) <= 921))
+	vEnsures(spec_client_ok(h))
+	vEnsures(spec_dhcp_ok(h))
 	return d
 }
